@@ -128,8 +128,14 @@ def main(argv):
         spec["run"](ctx)
     except extract.ExtractError as e:
         fatal = "extraction failed: %s" % e
-    except Exception as e:  # a crash of the analysis itself is never reported as a violation
+    except Exception as e:
         fatal = "analysis crashed: %r\n%s" % (e, traceback.format_exc())
+    if fatal:
+        # fail closed, like every other floor: the rule instances this property is anchored in were
+        # not (all) generated, so the current tree is not shown to satisfy it
+        ctx.ob("FLOOR", "analysis completed", "-", "-", False,
+               "instance floor missed: the analysis of this tree did not complete (%s); the anchored constructs "
+               "could not be analysed, so the property is not established" % fatal.splitlines()[0][:300])
 
     known = [k for k in load_known() if k.get("property") == pid and k.get("status") == "open"]
     viol = [o for o in ctx.obs if o.status == "viol"]
